@@ -246,3 +246,411 @@ def G2(vc):
     vc.canary('canary.always_finished', fin2)
     vc.canary('canary.never_delayed', s2.delayed is None)
     return ('with_outcome', s2.retries, fin2, s2.delayed is None, aw_later)
+
+
+# ----------------------------------------------------------------------------------------------- G3
+def make_stub_handler_state(vc):
+    """
+    progression.HandlerState *by contract* (G1/G2), as seen by progression.State: `active`, `finished`
+    are symbolic booleans, `delayed` an optional datetime; the derivations return fresh objects that
+    remember how they were made: as_active (active' = True, rest kept), with_purpose (purpose' set, rest
+    kept), with_outcome (G2: finished' <=> outcome.final, active kept), from_scratch (active, unfinished,
+    no delay, the given purpose).
+    """
+    class StubHS:
+        made = []
+
+        def __init__(self, tag, *, active, finished, delayed=None, purpose=None, origin=None):
+            self.tag, self.active, self.finished, self.delayed, self.purpose, self.origin = \
+                tag, active, finished, delayed, purpose, origin
+            self.subrefs = ()
+            StubHS.made.append(self)
+
+        def __repr__(self):
+            return f'<hs {self.tag}>'
+
+        @property
+        def success(self):
+            raise Unsupported('StubHS.success: not part of the contract used here')
+
+        def as_active(self):
+            return StubHS(self.tag + '.as_active', active=True, finished=self.finished, delayed=self.delayed,
+                          purpose=self.purpose, origin=('as_active', self))
+
+        def with_purpose(self, purpose):
+            return StubHS(self.tag + '.with_purpose', active=self.active, finished=self.finished, delayed=self.delayed,
+                          purpose=purpose, origin=('with_purpose', self, purpose))
+
+        def with_outcome(self, outcome):
+            return StubHS(self.tag + '.with_outcome', active=self.active, finished=outcome.final, delayed=None,
+                          purpose=self.purpose, origin=('with_outcome', self, outcome))
+
+        @classmethod
+        def from_scratch(cls, *, basetime, purpose=None):
+            return StubHS('scratch', active=True, finished=False, delayed=None, purpose=purpose,
+                          origin=('from_scratch', basetime, purpose))
+
+        @classmethod
+        def draw(cls, name, *, active=None, with_delay=True):
+            return StubHS(name, active=vc.bool(f'{name}.active') if active is None else active,
+                          finished=vc.bool(f'{name}.finished'),
+                          delayed=vc.opt(f'{name}.delayed', lambda n: draw_sdt(vc, n)) if with_delay else None,
+                          purpose=None)
+    return StubHS
+
+
+def load_state(vc, clock, StubHS):
+    """The real progression.State with the members under contract re-bound to their extracted source."""
+    stubs = time_stubs(clock, HandlerState=StubHS)
+    ld = {n: vc.load(PROG, f'State.{n}', stubs=stubs)
+          for n in ('done', 'delays', 'with_outcomes', 'with_handlers', 'with_purpose')}
+
+    class St(progression.State):
+        done = property(lambda self: ld['done'].fn(self))
+        delays = property(lambda self: ld['delays'].fn(self))
+
+        def with_outcomes(self, outcomes):
+            return ld['with_outcomes'].fn(self, outcomes)
+
+        def with_handlers(self, handlers):
+            return ld['with_handlers'].fn(self, handlers)
+
+        def with_purpose(self, purpose, handlers=()):
+            return ld['with_purpose'].fn(self, purpose, handlers)
+    return St
+
+
+def all_active_finished(states):
+    return And(True, *[Implies(s.active, s.finished) for s in states])
+
+
+@harness('G3', targets=[f'{PROG}.State.done', f'{PROG}.State.delays', f'{PROG}.State.with_outcomes',
+                        f'{PROG}.State.with_handlers', f'{PROG}.State.with_purpose'],
+         props=['C02', 'C06'],
+         clauses=['done_iff_all_active_finished', 'delays_empty_iff_all_active_finished', 'delays_cover_remaining',
+                  'with_outcomes_unknown_raises', 'with_outcomes_applies_exactly', 'with_handlers_activates_selected',
+                  'with_purpose_repurposes', 'closed_iff_selected_finished', 'immutable'],
+         canaries=['canary.always_done', 'canary.never_raises', 'canary.no_delays'],
+         trusted=['progression.HandlerState by contract G1/G2 (finished/active/delayed; as_active, with_purpose, '
+                  'with_outcome, from_scratch return fresh states)',
+                  'dict/comprehension/all() semantics of CPython (the maps are real dicts of 0..3 entries)'],
+         assumes=['G3 is proved for states maps of 0..3 entries (ids concrete and distinct, every entry fully '
+                  'symbolic); the bodies are element-wise comprehensions, the generalisation to n entries is by '
+                  'that structure and not machine-checked'])
+def G3(vc):
+    """
+    progression.State over a map {id: handler state} of 0..3 arbitrary entries (entry contracts: G1/G2):
+      done                <=> every ACTIVE entry is finished;
+      delays == []        <=> every active entry is finished   (C06: an unfinished active handler always
+                              yields a delay entry, so the finalizer cannot be released);
+      delays              has exactly one entry per active unfinished handler, each >= 0 and >= the time
+                              remaining until its `delayed`;
+      with_outcomes(o)    raises RuntimeError iff o mentions an id not in the state; otherwise the entry of
+                              every id in o is replaced by entry.with_outcome(o[id]) (called once), all others
+                              are the same objects, ids/purpose/basetime kept;
+      with_handlers(hs)   every h in hs gets an active entry: the existing one .as_active(), or a fresh
+                              from_scratch(basetime, purpose) one; other entries untouched;
+      with_purpose(p, hs) purpose' = p, entries of hs re-purposed, others untouched;
+      closed_iff_selected_finished: for a state as restored from storage (all entries passive),
+                              s.with_purpose(p).with_handlers(sel).with_outcomes(o).done <=> every selected
+                              handler's entry is finished -- neither earlier nor later;
+      the receiver is never modified (immutable).
+    """
+    clock = Clock('loop.time')
+    basetime = draw_sdt(vc, 'basetime')
+    StubHS = make_stub_handler_state(vc)
+    St = load_state(vc, clock, StubHS)
+    now = basetime.t + clock.now
+    scenario = ['done/delays', 'with_outcomes', 'with_handlers/with_purpose', 'cycle'][vc.nondet(4, 'scenario')]
+
+    if scenario == 'done/delays':
+        n = vc.nondet(4, 'entries')
+        entries = {f'h{i}': StubHS.draw(f'h{i}') for i in range(n)}
+        st = St(entries, basetime=basetime, purpose='update')
+        spec = all_active_finished(entries.values())
+        delays = st.delays
+        done = st.done
+        vc.ensure('done_iff_all_active_finished', Iff(done, spec))
+        vc.ensure('delays_empty_iff_all_active_finished', Iff(len(delays) == 0, spec))
+        pending = [e for e in entries.values() if bool(And(e.active, Not(e.finished)))]   # decided by `delays` already
+        vc.ensure('delays_cover_remaining', len(delays) == len(pending))
+        for d, e in zip(delays, pending):
+            vc.ensure('delays_cover_remaining', d >= 0)
+            if e.delayed is not None:
+                vc.ensure('delays_cover_remaining', d >= e.delayed.t - now)
+        vc.ensure('immutable', list(st._states.items()) == list(entries.items()))
+        vc.canary('canary.always_done', done)
+        vc.canary('canary.no_delays', len(delays) == 0)
+        return ('done/delays', n, done, len(delays))
+
+    def handler(i):
+        return Opaque(f'handler-{i}', id=i)
+
+    if scenario == 'with_outcomes':
+        n = vc.nondet(3, 'entries')
+        entries = {f'h{i}': StubHS.draw(f'h{i}', with_delay=False) for i in range(n)}
+        st = St(entries, basetime=basetime, purpose='update')
+        universe = list(entries) + ['zz']
+        subsets = [c for r in range(len(universe) + 1) for c in itertools.combinations(universe, r)]
+        ids = subsets[vc.nondet(len(subsets), 'ids with outcomes')]
+        outcomes = {i: Opaque(f'outcome-{i}', final=vc.bool(f'outcome[{i}].final')) for i in reversed(ids)}
+        n_made = len(StubHS.made)
+        try:
+            st2 = st.with_outcomes(outcomes)
+            raised = None
+        except RuntimeError as e:
+            st2, raised = None, e
+        vc.ensure('with_outcomes_unknown_raises', (raised is not None) == ('zz' in ids))
+        vc.ensure('immutable', list(st._states.items()) == list(entries.items()))
+        vc.canary('canary.never_raises', raised is None)
+        if raised is not None:
+            return ('with_outcomes', 'raise')
+        derived = StubHS.made[n_made:]
+        vc.ensure('with_outcomes_applies_exactly', list(st2) == list(entries) and st2.purpose == 'update'
+                  and st2.basetime is basetime and st2 is not st and len(derived) == len(ids))
+        for i in entries:
+            if i in ids:
+                vc.ensure('with_outcomes_applies_exactly', st2[i].origin == ('with_outcome', entries[i], outcomes[i])
+                          and sum(1 for d in derived if d.origin[1] is entries[i]) == 1)
+            else:
+                vc.ensure('with_outcomes_applies_exactly', st2[i] is entries[i])
+        return ('with_outcomes', 'return', len(ids))
+
+    if scenario == 'with_handlers/with_purpose':
+        n = vc.nondet(3, 'entries')
+        entries = {f'h{i}': StubHS.draw(f'h{i}', with_delay=False) for i in range(n)}
+        st = St(entries, basetime=basetime, purpose=resolve(vc.fin('state.purpose', [None, 'create'])))
+        universe = list(entries) + ['new']
+        subsets = [c for r in range(len(universe) + 1) for c in itertools.combinations(universe, r)]
+        sel = subsets[vc.nondet(len(subsets), 'selected handlers')]
+        hs = [handler(i) for i in reversed(sel)]
+        if vc.nondet(2, 'with_handlers / with_purpose') == 0:
+            st2 = st.with_handlers(iter(hs))
+            vc.ensure('with_handlers_activates_selected', set(st2) == set(entries) | set(sel) and st2.purpose == st.purpose
+                      and st2.basetime is basetime and st2 is not st)
+            for i in st2:
+                if i in sel and i in entries:
+                    vc.ensure('with_handlers_activates_selected', st2[i].origin == ('as_active', entries[i]))
+                elif i in sel:
+                    vc.ensure('with_handlers_activates_selected', st2[i].origin == ('from_scratch', basetime, st.purpose))
+                else:
+                    vc.ensure('with_handlers_activates_selected', st2[i] is entries[i])
+                if i in sel:
+                    vc.ensure('with_handlers_activates_selected', st2[i].active is True)
+        else:
+            sel = tuple(i for i in sel if i in entries)     # call sites re-purpose only handlers already in the state
+            hs = [handler(i) for i in reversed(sel)]
+            st2 = st.with_purpose('resume', iter(hs))
+            vc.ensure('with_purpose_repurposes', list(st2) == list(entries) and st2.purpose == 'resume'
+                      and st2.basetime is basetime and st2 is not st)
+            for i in entries:
+                vc.ensure('with_purpose_repurposes', st2[i].origin == ('with_purpose', entries[i], 'resume') if i in sel
+                          else st2[i] is entries[i])
+        vc.ensure('immutable', list(st._states.items()) == list(entries.items()))
+        return ('derive', len(sel))
+
+    # ---- one whole handling cycle at the level of State (as process_changing_cause / subhandling.execute do):
+    # restored from storage (G1: every entry passive) -> with_purpose -> with_handlers(selected) -> with_outcomes
+    n = vc.nondet(3, 'stored entries')
+    entries = {f'h{i}': StubHS.draw(f'h{i}', active=False, with_delay=False) for i in range(n)}
+    st = St(entries, basetime=basetime)
+    universe = list(entries) + ['new']
+    subsets = [c for r in range(len(universe) + 1) for c in itertools.combinations(universe, r)]
+    sel = subsets[vc.nondet(len(subsets), 'selected handlers')]
+    hs = [handler(i) for i in sel]
+    st1 = st.with_purpose('update').with_handlers(hs)
+    done1 = st1.done
+    vc.ensure('closed_iff_selected_finished', Iff(done1, And(True, *[st1[i].finished for i in sel])))
+    vc.ensure('closed_iff_selected_finished', all(bool(Eq(st1[i].finished, entries[i].finished)) for i in sel if i in entries))
+    subs = [c for r in range(len(sel) + 1) for c in itertools.combinations(sel, r)]
+    executed = subs[vc.nondet(len(subs), 'handlers executed in this round')]
+    outcomes = {i: Opaque(f'outcome-{i}', final=vc.bool(f'outcome[{i}].final')) for i in executed}
+    st2 = st1.with_outcomes(outcomes)
+    done2 = st2.done
+    vc.ensure('closed_iff_selected_finished', Iff(done2, And(True, *[st2[i].finished for i in sel])))
+    vc.ensure('closed_iff_selected_finished',
+              Iff(done2, And(True, *[(outcomes[i].final if i in executed else st1[i].finished) for i in sel])))
+    return ('cycle', len(sel), len(executed), done1, done2)
+
+
+# ----------------------------------------------------------------------------------------------- X3
+LIFE = 'kopf._core.actions.lifecycles'
+
+
+def sub_permutations(items):
+    """Every duplicate-free sequence over `items` (the lifecycle contract: plan within todo, no duplicates)."""
+    return [p for r in range(len(items) + 1) for p in itertools.permutations(items, r)]
+
+
+@harness('X3', targets=[f'{LIFE}.all_at_once', f'{LIFE}.one_by_one', f'{LIFE}.asap', f'{LIFE}.randomized', f'{LIFE}.shuffled'],
+         props=['C02'],
+         clauses=['never_raises', 'plan_within_todo', 'no_duplicates', 'progress', 'documented_choice', 'frame'],
+         canaries=['canary.plans_everything'],
+         trusted=['random.choice(seq): some element of a non-empty seq; random.sample(seq, k): k elements at '
+                  'distinct positions of seq, in any order',
+                  'sorted()/slicing semantics of CPython on real lists'],
+         assumes=['X3 is proved for handler lists of 0..3 entries (all_at_once: additionally for an arbitrary opaque '
+                  'collection); user-supplied lifecycles are outside the code base: X2 assumes this contract for them'])
+def X3(vc):
+    """
+    The lifecycle contract that execute_handlers_once (X2) relies on, for each built-in lifecycle, on the list
+    `todo` of awakened handlers (0..3 entries, arbitrary recorded retries incl. None) and arbitrary extra kwargs:
+    no exception; the plan consists of members of todo only (by identity), without duplicates; a non-empty todo gives a
+    non-empty plan (otherwise a due handler would never be invoked); todo and the state are not modified.
+    Documented choice: all_at_once -> all of todo in order (for any collection: the same object), one_by_one
+    -> the first, asap -> exactly one with the fewest recorded retries, randomized -> exactly one,
+    shuffled -> all, each once.
+    """
+    which = ['all_at_once', 'one_by_one', 'asap', 'randomized', 'shuffled'][vc.nondet(5, 'lifecycle')]
+
+    def choice(seq):
+        if len(seq) == 0:
+            raise IndexError('Cannot choose from an empty sequence')      # as random.choice does
+        return seq[vc.nondet(len(seq), 'random.choice')]
+
+    def sample(seq, k):
+        if not 0 <= k <= len(seq):
+            raise ValueError('Sample larger than population or is negative')      # as random.sample does
+        perms = list(itertools.permutations(range(len(seq)), k))
+        return [seq[i] for i in perms[vc.nondet(len(perms), 'random.sample')]]
+    ld = vc.load(LIFE, which, stubs={'random.choice': choice, 'random.sample': sample})
+    if which == 'all_at_once' and vc.nondet(2, 'bounded list / arbitrary collection') == 1:
+        anything = Opaque('handlers of any length', truth=vc.bool('non-empty'))
+        plan = ld.fn(anything, state=Opaque('state'), extra=1)
+        vc.ensure('documented_choice', plan is anything)
+        return ('arbitrary', which)
+    n = vc.nondet(4, 'len(todo)')
+    todo = [Opaque(f'handler-h{i}', id=f'h{i}') for i in range(n)]
+    retries = {}
+    for h in todo:
+        r = vc.opt(f'retries[{h.id}]', vc.int)
+        if r is not None:
+            vc.assume(r >= 0, 'recorded attempts are a count')
+        retries[h.id] = r
+    state = {h.id: Opaque(f'state-{h.id}', retries=retries[h.id]) for h in todo}
+    state['other'] = Opaque('state-other', retries=0)
+    todo_before, state_before = list(todo), dict(state)
+    try:
+        plan = list(ld.fn(todo, state=state, body=Opaque('body'), logger=NullLogger(), retry=0))
+    except Exception as e:
+        vc.ensure('never_raises', False, note=repr(e))
+        return ('raise', which, n, type(e).__name__)
+    vc.ensure('never_raises', True)
+    vc.ensure('plan_within_todo', all(any(p is h for h in todo) for p in plan))
+    vc.ensure('no_duplicates', all(p is not q for i, p in enumerate(plan) for q in plan[:i]))
+    vc.ensure('progress', len(plan) > 0 or n == 0)
+    vc.ensure('frame', len(todo) == len(todo_before) and all(a is b for a, b in zip(todo, todo_before))
+              and state == state_before)
+
+    def recorded(h):
+        r = retries[h.id]
+        return 0 if r is None else r
+    if which == 'all_at_once':
+        vc.ensure('documented_choice', len(plan) == n and all(a is b for a, b in zip(plan, todo)))
+    elif which == 'one_by_one':
+        vc.ensure('documented_choice', len(plan) == min(n, 1) and all(p is todo[0] for p in plan))
+    elif which == 'asap':
+        vc.ensure('documented_choice', len(plan) == min(n, 1))
+        for p in plan:
+            vc.ensure('documented_choice', And(True, *[recorded(p) <= recorded(h) for h in todo]))
+    elif which == 'randomized':
+        vc.ensure('documented_choice', len(plan) == min(n, 1))
+    else:
+        vc.ensure('documented_choice', len(plan) == n)
+    vc.canary('canary.plans_everything', len(plan) == n)
+    return ('plan', which, n, [p.id for p in plan])
+
+
+# ----------------------------------------------------------------------------------------------- X2
+@harness('X2', targets='kopf._core.actions.execution.execute_handlers_once', props=['C02'],
+         clauses=['lifecycle_gets_awakened_only', 'invokes_only_awakened_members', 'state_of_that_handler',
+                  'each_at_most_once', 'executes_the_plan', 'outcomes_by_id', 'passes_context', 'errors_propagate'],
+         canaries=['canary.invokes_all_handlers', 'canary.never_raises'],
+         trusted=['lifecycle(todo, state=, **kwargs): a duplicate-free sequence of members of todo -- proved for the '
+                  'built-ins (X3), ASSUMED for user-supplied lifecycles',
+                  'execute_handler_once by contract X1: returns an Outcome; only cancellation / non-Exception '
+                  'BaseExceptions escape'],
+         assumes=['X2 is proved for 0..3 registered handlers with arbitrary awakened flags, every plan allowed by the '
+                  'lifecycle contract and every position of an escaping cancellation; precondition (all call sites: '
+                  'state = ....with_handlers(handlers)): state[h.id] exists for every h in handlers'])
+def X2(vc):
+    """
+    execute_handlers_once(lifecycle, settings, handlers, cause, state, ...): the lifecycle is asked exactly once,
+    with todo == the handlers whose state[h.id].awakened holds (registration order), the state and cause.kwargs.
+    Relative to the lifecycle contract (plan within todo, no duplicates) every call
+    execute_handler_once(handler=h, state=s, ...) satisfies  h in handlers,  s is state[h.id],  s.awakened,  and
+    no handler is executed twice -- so (with G1: awakened ==> not finished and not before `delayed`) a handler whose
+    success/failure is recorded is never invoked, and the invoked one gets its own record (retry == its recorded
+    attempts by X1).  All planned handlers are executed in plan order, the result maps exactly their ids to their
+    outcomes, the context arguments are passed through, and an exception escaping from execute_handler_once
+    (cancellation) propagates at once: no further handler is started.
+    """
+    n = vc.nondet(4, 'len(handlers)')
+    handlers = [Opaque(f'handler-h{i}', id=f'h{i}') for i in range(n)]
+    entries = {h.id: Opaque(f'state[{h.id}]', awakened=vc.bool(f'state[{h.id}].awakened')) for h in handlers}
+    entries['unrelated'] = Opaque('state[unrelated]', awakened=vc.bool('state[unrelated].awakened'))
+    lookups = []
+
+    class State(execution.State):
+        def __getitem__(self, k): lookups.append(k); return entries[k]
+        def __iter__(self): return iter(entries)
+        def __len__(self): return len(entries)
+    state = State()
+    cause = Opaque('cause', kwargs={'body': Opaque('body'), 'retry': 0}, logger=NullLogger())
+    settings, extra_context = Opaque('settings'), Opaque('extra_context')
+    default_errors = resolve(vc.fin('default_errors', list(execution.ErrorsMode)))
+    lifecycle_calls = []
+
+    def lifecycle(todo, **kw):
+        lifecycle_calls.append((list(todo), kw))
+        options = sub_permutations(list(todo))
+        plans.append(list(options[vc.nondet(len(options), 'lifecycle plan (any allowed by its contract)')]))
+        return iter(plans[-1])        # any iterable
+    plans = []
+    vc.used('lifecycle', 'X3')
+    calls, results, boom = [], [], []
+
+    async def execute_handler_once(**kw):
+        calls.append(kw)
+        await suspend('execute_handler_once')
+        if vc.nondet(2, 'execute_handler_once: returns / cancelled') == 1:
+            boom.append(__import__('asyncio').CancelledError())
+            raise boom[0]
+        results.append(Opaque(f'outcome#{len(results)}'))
+        return results[-1]
+    vc.used('execution.execute_handler_once', 'X1')
+    ld = vc.load('kopf._core.actions.execution', 'execute_handlers_once', stubs={'execute_handler_once': execute_handler_once})
+    escaped = out = None
+    try:
+        out = vc.drive(ld.fn(lifecycle=lifecycle, settings=settings, handlers=handlers, cause=cause, state=state,
+                             extra_context=extra_context, default_errors=default_errors))
+    except BaseException as e:
+        if isinstance(e, (PathEnd, Unsupported)):
+            raise
+        escaped = e
+    vc.ensure('lifecycle_gets_awakened_only', len(lifecycle_calls) == 1)
+    if len(lifecycle_calls) != 1:
+        return ('no-plan',)
+    todo, lkw = lifecycle_calls[0]
+    spec_todo = [h for h in handlers if bool(entries[h.id].awakened)]      # decided already by the function's own reads
+    vc.ensure('lifecycle_gets_awakened_only', len(todo) == len(spec_todo) and all(a is b for a, b in zip(todo, spec_todo)))
+    vc.ensure('lifecycle_gets_awakened_only', lkw.get('state') is state
+              and {k: v for k, v in lkw.items() if k != 'state'} == cause.kwargs)
+    for kw in calls:
+        h = kw['handler']
+        vc.ensure('invokes_only_awakened_members', any(h is x for x in handlers))
+        vc.ensure('invokes_only_awakened_members', entries[h.id].awakened)
+        vc.ensure('state_of_that_handler', kw['state'] is entries[h.id])
+        vc.ensure('passes_context', kw['settings'] is settings and kw['cause'] is cause and kw['lifecycle'] is lifecycle
+                  and kw['extra_context'] is extra_context and kw['default_errors'] is default_errors)
+    vc.ensure('each_at_most_once', all(a['handler'] is not b['handler'] for i, a in enumerate(calls) for b in calls[:i]))
+    vc.ensure('errors_propagate', (escaped is boom[0]) if boom else (escaped is None))
+    vc.canary('canary.never_raises', escaped is None)
+    if escaped is not None:
+        vc.ensure('errors_propagate', calls[-1] is calls[len(results)] and len(calls) == len(results) + 1)
+        return ('raise', len(calls))
+    vc.ensure('executes_the_plan', len(calls) == len(plans[0]) and all(kw['handler'] is p for kw, p in zip(calls, plans[0])))
+    vc.ensure('outcomes_by_id', isinstance(out, dict) and list(out) == [kw['handler'].id for kw in calls]
+              and all(out[kw['handler'].id] is r for kw, r in zip(calls, results)))
+    vc.canary('canary.invokes_all_handlers', len(calls) == n)
+    return ('return', n, [kw['handler'].id for kw in calls])
